@@ -253,15 +253,16 @@ Proof.
   destruct P as [P|P]; [now left|right]. apply up_run_down; [exact P|apply not_establish_ann].
 Qed.
 
-Lemma NbInv_commit : forall s n c pn b, NbInv b -> NbInv (commit_nb s n c pn b).
+Lemma NbInv_commit : forall fx s n c pn b, NbInv b -> NbInv (commit_nb fx s n c pn b).
 Proof.
-  intros s n c pn b H. unfold commit_nb.
+  intros fx s n c pn b H. unfold commit_nb.
   assert (H1 : NbInv (if pn then parsed_nb b c else b)) by (destruct pn; [now apply NbInv_parsed|exact H]).
-  set (b1 := if pn then parsed_nb b c else b) in *.
-  destruct (zget n (peers s)) as [p|]; [|exact H1]. destruct H1 as [I P].
+  set (b1 := if pn then parsed_nb b c else b) in *. destruct H1 as [I P].
+  assert (Pb : npw b1 = npw b) by (unfold b1; destruct pn; reflexivity).
+  destruct (zget n (peers s)) as [p|].
+  2:{ split; cbn [nsys npw]; [exact I|now left]. }
   destruct (p =? nparams c).
-  - split; cbn [nsys npw]; [now apply run_inv|]. destruct P as [P|P]; [now left|right].
-    apply up_run_down; [exact P|apply not_establish_rr].
+  - split; cbn [nsys npw]; [now apply run_inv|now left].
   - split; cbn [nsys npw]; [now apply step_inv|now right].
 Qed.
 
@@ -324,31 +325,48 @@ Definition expected (s : st) (n : Z) (c : ncfg) (k : Z) : option (Z * Z) :=
 Definition goal (b : nb) (k : Z) : option (Z * Z) :=
   if has_idx k (npw b) then None else zget k (intended (nsys b)).
 
-Lemma goal_commit : forall s n c k, Ready s ->
-  goal (commit_nb s n c true (get_nb n (ribs s))) k = expected s n c k.
+Lemma has_idx_app : forall k a b, has_idx k (a ++ b) = has_idx k a || has_idx k b.
+Proof. intros. unfold has_idx. apply existsb_app. Qed.
+
+(* what a committed reload does to the value the peer is heading to, whatever is still owed *)
+Lemma goal_commit_gen : forall fx s n c k b0,
+  (zget n (peers s) = None -> npw b0 = [] /\ zget n (neighbors s) = None) ->
+  fix_chain fx = true \/ npw b0 = [] ->
+  goal (commit_nb fx s n c true b0) k = diffed (prev_routes s n) (nroutes c) k (goal b0 k).
 Proof.
-  intros s n c k R. unfold expected, goal, commit_nb.
-  set (b0 := get_nb n (ribs s)).
-  assert (P0 : npw b0 = []).
-  { unfold b0, get_nb. destruct (zget n (ribs s)) as [b|] eqn:G; [|reflexivity]. now destruct (rd_inv s R n b G). }
+  intros fx s n c k b0 Hnew Hc. unfold goal, commit_nb.
+  set (owed := (if fix_chain fx then npw b0 else []) ++ prev_routes s n).
+  assert (HO : has_idx k owed = has_idx k (npw b0) || has_idx k (prev_routes s n)).
+  { unfold owed. rewrite has_idx_app. destruct Hc as [Hc|Hc]; [now rewrite Hc|].
+    rewrite Hc. destruct (fix_chain fx); reflexivity. }
   assert (I1 : zget k (intended (nsys (parsed_nb b0 c))) =
                match lastk k (nroutes c) with Some x => Some (rval x) | None => zget k (intended (nsys b0)) end).
   { cbn [parsed_nb nsys]. rewrite intended_run by apply simple_ann. apply IE_ann. }
   destruct (zget n (peers s)) as [p|] eqn:Gp.
   - destruct (p =? nparams c); cbn [nsys npw].
-    + cbn [parsed_nb npw]. rewrite P0. cbn [has_idx existsb].
-      rewrite intended_run by apply simple_rr. cbn [parsed_nb nsys].
-      rewrite intended_run by apply simple_ann. apply IE_reconfigure.
+    + cbn [has_idx existsb]. rewrite intended_run by apply simple_rr. cbn [parsed_nb nsys].
+      rewrite intended_run by apply simple_ann. rewrite IE_reconfigure. unfold diffed.
+      destruct (lastk k (nroutes c)); [reflexivity|]. rewrite HO.
+      destruct (has_idx k (npw b0)), (has_idx k (prev_routes s n)); reflexivity.
     + rewrite has_idx_leftover. rewrite (intended_step _ Drop) by reflexivity. cbn [ieff]. rewrite I1.
       unfold diffed. rewrite (lastk_has k (nroutes c)). destruct (lastk k (nroutes c)); simpl; [reflexivity|].
-      destruct (has_idx k (prev_routes s n)); reflexivity.
+      rewrite HO. destruct (has_idx k (npw b0)), (has_idx k (prev_routes s n)); reflexivity.
   - (* a new peer: the neighbor was not configured before *)
-    cbn [parsed_nb npw]. rewrite P0. cbn [has_idx existsb]. fold (parsed_nb b0 c). rewrite I1.
-    unfold diffed, prev_routes.
-    assert (Nn : zget n (neighbors s) = None).
-    { pose proof (rd_peers s R n) as E. unfold amem in E. rewrite Gp in E.
-      destruct (zget n (neighbors s)); [discriminate|reflexivity]. }
-    rewrite Nn. reflexivity.
+    destruct (Hnew eq_refl) as [P0 Nn]. cbn [nsys npw has_idx existsb]. rewrite I1.
+    unfold diffed, prev_routes. rewrite Nn, P0. cbn [has_idx existsb]. reflexivity.
+Qed.
+
+Lemma goal_commit : forall fx s n c k, Ready s ->
+  goal (commit_nb fx s n c true (get_nb n (ribs s))) k = expected s n c k.
+Proof.
+  intros fx s n c k R.
+  assert (P0 : npw (get_nb n (ribs s)) = []).
+  { unfold get_nb. destruct (zget n (ribs s)) as [b|] eqn:G; [|reflexivity]. now destruct (rd_inv s R n b G). }
+  rewrite goal_commit_gen.
+  - unfold expected, goal. rewrite P0. reflexivity.
+  - intros Gp. split; [exact P0|]. pose proof (rd_peers s R n) as E. unfold amem in E. rewrite Gp in E.
+    destruct (zget n (neighbors s)); [discriminate|reflexivity].
+  - now right.
 Qed.
 
 (* schedules that follow the reload: RIB-level operations only, none of them an API operation on
@@ -468,7 +486,7 @@ Proof.
   - intros n b G. unfold commit_ribs in G. rewrite aget_build in G. destruct (existsb _ _); [|discriminate].
     cbn [st0 stale ribs peers] in G.
     destruct (zget n (merge_cfg [] cfg)) as [c|]; [|discriminate]. injection G as <-.
-    unfold commit_nb. cbn [st0 peers aget]. unfold get_nb. cbn [aget].
+    unfold commit_nb. cbn [st0 peers aget]. unfold get_nb. cbn [aget nsys npw].
     destruct (fix_defer fx || zmem n cfg).
     + cbn [parsed_nb nsys npw nb_new]. split; [apply run_inv; exact Inv_sys_new|reflexivity].
     + cbn [nb_new nsys npw]. split; [exact Inv_sys_new|reflexivity].
@@ -511,7 +529,15 @@ Proof. intros [a b c d] H. simpl in *. now subst. Qed.
 (* the repaired tree: a failed reload is the identity on everything *)
 Theorem failure_noop_repaired : forall s o, stale s = [] -> not_parsed o -> reload repaired s o = (s, false).
 Proof.
-  intros s o H N. destruct o as [cfg|clean pre|]; [contradiction| |]; cbn [reload repaired fix_rollback fix_defer].
+  intros s o H N. destruct o as [cfg|clean pre|]; [contradiction| |]; cbn [reload repaired fix_rollback fix_defer fix_chain].
+  - rewrite orb_true_r. now rewrite st_eta.
+  - now rewrite st_eta.
+Qed.
+
+Theorem failure_noop_fx : forall fx s o, fix_rollback fx = true -> fix_defer fx = true ->
+  stale s = [] -> not_parsed o -> reload fx s o = (s, false).
+Proof.
+  intros fx s o F1 F2 H N. destruct o as [cfg|clean pre|]; [contradiction| |]; cbn [reload]; rewrite ?F1, ?F2.
   - rewrite orb_true_r. now rewrite st_eta.
   - now rewrite st_eta.
 Qed.
@@ -613,3 +639,100 @@ Lemma failure_pinned_stale_neighbor_resurrected :
   let s := run_r pinned [Reload (Failed true wprefix); Reload (Parsed [(2, {| nparams := 1; nroutes := [wR 2 1] |})])] wstate in
   akeys (neighbors s) = [1; 2] /\ option_map nroutes (zget 1 (neighbors s)) = Some [wR 1 3; wR 9 1].
 Proof. vm_compute. split; reflexivity. Qed.
+
+(* ================================================================ 7. several reloads in a row *)
+
+(* the states reloads start from in ANY history of the repaired tree: withdraws may still be owed to
+   sessions that have not come up since an earlier reload *)
+Record Steady (s : st) : Prop := {
+  sd_stale : stale s = [];
+  sd_peers : forall n, zmem n (peers s) = zmem n (neighbors s);
+  sd_orphan : forall n b, zget n (ribs s) = Some b -> zget n (peers s) = None -> npw b = []
+}.
+
+Lemma Steady_st0 : Steady st0.
+Proof. constructor; [reflexivity|reflexivity|intros n b G; discriminate]. Qed.
+
+Lemma Steady_reload_parsed : forall fx s cfg, Steady s -> Steady (fst (reload fx s (Parsed cfg))).
+Proof.
+  intros fx s cfg S. constructor; cbn [reload fst stale peers neighbors ribs].
+  - reflexivity.
+  - intros n. apply amem_commit_peers.
+  - intros n b G P. unfold commit_ribs in G. rewrite aget_build in G.
+    destruct (existsb (Z.eqb n) (merge_names (akeys (ribs s)) (akeys (merge_cfg (stale s) cfg)))); [|discriminate].
+    destruct (zget n (merge_cfg (stale s) cfg)) as [c|] eqn:Gc.
+    + exfalso. unfold commit_peers in P. rewrite aget_build, Gc in P.
+      rewrite in_merge_names in P; [discriminate|]. eapply aget_in_keys; [exact zspec|exact Gc].
+    + destruct (zmem n (peers s)) eqn:M; [discriminate|]. apply (sd_orphan s S n b G).
+      unfold amem in M. destruct (zget n (peers s)); [discriminate|reflexivity].
+Qed.
+
+Lemma Steady_ribop : forall fx s n o, Steady s -> Steady (rstep fx s (RibOp n o)).
+Proof.
+  intros fx s n o S. cbn [rstep]. destruct (zmem n (peers s)) eqn:M; [|exact S].
+  destruct (zget n (ribs s)) as [b|] eqn:G; [|exact S].
+  constructor; cbn [stale peers neighbors ribs]; [exact (sd_stale s S)|exact (sd_peers s S)|].
+  intros m b' G' P. destruct (zspec m n) as [->|N].
+  - unfold amem in M. rewrite P in M. discriminate.
+  - rewrite aget_aset_other in G'; [now apply (sd_orphan s S m)|exact zspec|exact N].
+Qed.
+
+(* With the owed withdraws kept across reloads, a parsed reload acts on the value every peer is heading
+   to exactly as the difference of the two files, whatever happened before (sessions up or down,
+   earlier reloads not yet acted upon): reloads compose. *)
+Theorem reload_composes : forall fx s cfg n c k,
+  fix_chain fx = true -> Steady s -> zget n cfg = Some c ->
+  exists b, zget n (ribs (fst (reload fx s (Parsed cfg)))) = Some b /\
+    goal b k = diffed (prev_routes s n) (nroutes c) k (goal (get_nb n (ribs s)) k).
+Proof.
+  intros fx s cfg n c k F S Gc. cbn [reload fst ribs]. rewrite (sd_stale s S).
+  unfold commit_ribs. rewrite aget_build, aget_merge_nil, Gc.
+  rewrite in_merge_names.
+  2:{ eapply aget_in_keys; [exact zspec|]. rewrite aget_merge_nil. exact Gc. }
+  assert (M : zmem n cfg = true) by (unfold amem; now rewrite Gc). rewrite M, orb_true_r.
+  eexists. split; [reflexivity|]. apply goal_commit_gen; [|now left].
+  intros P. split.
+  - unfold get_nb. destruct (zget n (ribs s)) as [b|] eqn:G; [|reflexivity]. now apply (sd_orphan s S n b).
+  - pose proof (sd_peers s S n) as E. unfold amem in E. rewrite P in E.
+    destruct (zget n (neighbors s)); [discriminate|reflexivity].
+Qed.
+
+(* once the session is up and the RIB drained, the peer holds that value *)
+Theorem peer_reaches_goal : forall fx ops n b k,
+  zget n (ribs (run_r fx ops st0)) = Some b -> up (nsys b) = true -> drained (r (nsys b)) ->
+  zget k (peer (nsys b)) = goal b k.
+Proof.
+  intros fx ops n b k G U D. destruct (AllInv_run fx ops n b G) as [I P].
+  destruct (drained_converged (nsys b) I U D k) as [A B]. rewrite A, <- B. unfold goal.
+  destruct P as [P|P]; [now rewrite P|congruence].
+Qed.
+
+(* the tree without that repair: a reload that changes a session parameter and removes prefix 2, then
+   another reload before the session has come up: prefix 2 is never withdrawn *)
+Definition chain_old : cfgmap := [(1, {| nparams := 1; nroutes := [wR 1 1; wR 2 1] |})].
+Definition chain_mid : cfgmap := [(1, {| nparams := 2; nroutes := [wR 1 1] |})].
+Definition chain_new : cfgmap := [(1, {| nparams := 2; nroutes := [wR 1 1; wR 3 1] |})].
+Definition chain_state (fx : fixes) : st := run_r fx [Reload (Parsed chain_old); Reload (Parsed chain_mid)] st0.
+
+Lemma chain_state_steady : forall fx, Steady (chain_state fx).
+Proof.
+  intros fx. unfold chain_state, run_r. cbn [fold_left rstep].
+  apply Steady_reload_parsed, Steady_reload_parsed, Steady_st0.
+Qed.
+
+Theorem reload_composes_refuted_without_chain :
+  exists s cfg n c k, Steady s /\ zget n cfg = Some c /\
+    forall b, zget n (ribs (fst (reload repaired_failure s (Parsed cfg)))) = Some b ->
+      goal b k <> diffed (prev_routes s n) (nroutes c) k (goal (get_nb n (ribs s)) k).
+Proof.
+  exists (chain_state repaired_failure), chain_new, 1, {| nparams := 2; nroutes := [wR 1 1; wR 3 1] |}, 2.
+  split; [apply chain_state_steady|]. split; [reflexivity|].
+  intros b G. vm_compute in G. injection G as <-. vm_compute. discriminate.
+Qed.
+
+Lemma chain_peer_tables :
+  let tail := [Reload (Parsed chain_new); RibOp 1 Establish; RibOp 1 Start; RibOp 1 Emit; RibOp 1 Emit; RibOp 1 Emit; RibOp 1 Emit] in
+  zget 2 (peer (nsys (get_nb 1 (ribs (run_r repaired_failure tail (chain_state repaired_failure)))))) = Some (1, 1) /\
+  zget 2 (peer (nsys (get_nb 1 (ribs (run_r repaired tail (chain_state repaired)))))) = None /\
+  zget 3 (peer (nsys (get_nb 1 (ribs (run_r repaired tail (chain_state repaired)))))) = Some (1, 1).
+Proof. vm_compute. repeat split. Qed.
